@@ -26,6 +26,7 @@ from c05 import (CaptureSet, canon_stream, canon_visible, cut_files, gen_set, pa
 PROP = "C08"
 KF_STALE = "stale-id-after-bridging-capture"
 KF_SNAPREUSE = "snapshot-forgets-closed-tcp-4tuple"
+KF_QUEUED = "queued-payload-flushed-but-not-written"
 REGIMES = ["plain", "dup", "reorder", "udp-only", "udp-collide", "udp-reuse", "udp-reuse", "tcp-only", "tcp-reuse-late", "mixed"]
 
 
@@ -78,6 +79,42 @@ def schedules_ooo(rng, cs, tier):
             steps = [(0, [perm[0]]), (0, list(perm[1:]))]
         runs.append(("ooo%d" % i, 100000, steps))
     return runs
+
+
+def gen_lossy(rng, name):
+    """capture loss: data segments of ONE direction of some TCP conversations are missing from the capture, so
+    the reassembler queues what follows the gap and emits it only on an inactivity flush; a later flow
+    (same port-hash bucket, > 5 minutes later) provides that flush in a later capture file."""
+    cs = gen_set(rng, name, "tcp-only")
+    lossy = []
+    for c in cs.convs:
+        if c.proto != "TCP":
+            continue
+        d = rng.choice("cs")
+        cand = [p for p in c.pkts if p["dir"] == d and p["data"] and "S" not in p["flags"]]
+        if len(cand) >= 2 and rng.random() < 0.8:
+            drop = rng.choice(cand[:-1])
+            # drop every copy of those bytes (retransmissions would fill the gap again)
+            lo, hi = drop["seq"], drop["seq"] + len(drop["data"])
+            gone = [p for p in cand if not (p["seq"] + len(p["data"]) <= lo or p["seq"] >= hi)]
+            c.pkts = [p for p in c.pkts if not any(p is g for g in gone)]
+            for i, p in enumerate(c.pkts):
+                p["seqno"] = i
+            lossy.append(c.cid)
+    t_hi = max(p["ts"] for c in cs.convs for p in c.pkts)
+    late = []
+    for c in [c for c in cs.convs if c.cid in lossy][:3]:
+        lc = c05.Conv(len(cs.convs) + len(late), "TCP", ("0a0009%02x" % (len(late) + 1), c.client[1]), ("0a000a01", c.server[1]), [("c", b"late")], close="fin")
+        c05.render_tcp(rng, lc, t_hi + c05.TIMEOUT_US + rng.randrange(1, 100 * 1000000), 0, isn=(11, 22))
+        late.append(lc)
+    cs.convs += late
+    allp = [p for c in cs.convs for p in c.pkts]
+    allp.sort(key=lambda p: (p["ts"], p["cid"], p["seqno"]))
+    cs.packets = allp
+    cs.regime = "lossy"
+    cs.lossy = lossy
+    first_late = min(cs.packets.index(c.pkts[0]) for c in late) if late else None
+    return cs, first_late
 
 
 def schedules_ooo_snap(rng, cs, tier):
@@ -215,6 +252,16 @@ def classify(cs, label, run_res, ref_canon, steps_of=None):
         errs2, left = oracle_run(run_res, ref_canon, allow_leftover=True)
         if not errs2 and left:
             return "known:" + KF_STALE, errs
+    if cs.regime == "lossy" and getattr(cs, "lossy", None):
+        eps = {frozenset([c.client, c.server]) for c in cs.convs if c.cid in cs.lossy}
+
+        def on_lossy(s):
+            return s["proto"] == "TCP" and frozenset([s["client"], s["server"]]) in eps
+        errs2, _ = oracle_run(run_res, ref_canon, ignore=on_lossy)
+        # the connection with the capture gap must still be there with the same packets; only its payload may differ
+        same_pk = sorted((x[0], x[1], x[2], x[3]) for x in canon_visible(run_res["steps"][-1]["streams"])) == sorted((x[0], x[1], x[2], x[3]) for x in ref_canon)
+        if not errs2 and same_pk:
+            return "known:" + KF_QUEUED, errs
     if label.startswith("snap") or label in ("each", "eachrestart"):
         frag = forgotten_tcp(cs, steps_of, run_res)
         if frag:
@@ -342,6 +389,11 @@ def main(tier, seed, replay=None):
             cut_files(rng, cs, "contig", nfiles=rng.choice([2, 3, 3, 4]))
             if len(cs.files) > 1:
                 plain_sets.append((cs, schedules_ooo(rng, cs, tier)))
+        for i in range(n_ooo // 3):
+            cs, first_late = gen_lossy(rng, "l%d" % i)
+            if first_late:
+                cut_files(rng, cs, "contig", cuts=[first_late] + rng.sample(range(1, len(cs.packets)), rng.choice([0, 1])))
+                plain_sets.append((cs, schedules(rng, cs, "contig", tier)))
         for i in range(n_snap):
             cs = gen_set(rng, "s%d" % i, REGIMES[i % len(REGIMES)])
             cut_files(rng, cs, "contig")
@@ -466,6 +518,7 @@ def main(tier, seed, replay=None):
             if len(samples) < 4 and not bad:
                 samples.append({"regime": cs.regime, "overlay": tag, "files": cs.files, "packets": len(cs.packets), "runs": [[l, se, st] for l, se, st in runs][:4]})
     what = {KF_STALE: "out-of-order arrival: a later-arriving capture bridges two already indexed runs of one flow; the second run's id stays visible beside the rewritten first one",
+            KF_QUEUED: "TCP payload queued behind a capture gap is emitted by the inactivity flush of a later import that does not rewrite the stream: batched import lacks bytes the one-shot import shows",
             KF_SNAPREUSE: "snapshot availability changes the result when a TCP 4-tuple is reused within 5 minutes of its close (with a snapshot the closed connection is forgotten and the new one is indexed; without, it is swallowed)"}
     for slug, where in sorted(kf_seen.items()):
         print("KNOWN-FINDING: property=%s id=%s %s [%d runs, e.g. %s]" % (PROP, slug, what[slug], len(where), where[0][0]), flush=True)
